@@ -62,8 +62,8 @@ func (f *traceFile) Close() error {
 
 var _ io.Reader = (*traceFile)(nil)
 
-var fsNames = []string{"a.html", "b.html", "index.html", "z.htm", "notes.txt", "a.html.bak", "x.tpl.html", "é.html", "A.html", "0.html", "frag.html", "layout.html"}
-var fsDirs = []string{"views", "views/partials", "admin", "views/a", "a", "z", "views/partials/deep"}
+var fsNames = []string{"a.html", "b.html", "index.html", "z.htm", "notes.txt", "a.html.bak", "x.tpl.html", "é.html", "A.html", "0.html", "frag.html", "layout.html", ".hidden.html", "..x.html", "a..html"}
+var fsDirs = []string{"views", "views/partials", "admin", "views/a", "a", "z", "views/partials/deep", ".partials", "views/.d", "..d"} // names starting with dots are ordinary names
 
 func genFsCase(r *Rng, out *outFiles) {
 	files := map[string]string{}
